@@ -192,6 +192,18 @@ func mapsAndErrorsScenario(i *Iface, nfuncs int) *vm.Scenario {
 					}
 				}
 			}
+			// an implementation that sets response context and status, then one that sets neither, and back:
+			// nothing of an earlier call on the same connection may reach a later caller
+			for k := 0; k < 5; k++ {
+				n++
+				cs := newSpec(f, fmt.Sprintf("alt%d", n))
+				cs.opts = []map[string]string{{"case": cs.id, "k": "v"}, {"s": "t"}}
+				if k%2 == 0 {
+					cs.sc.rspCtx = map[string]string{"who": cs.id}
+					cs.sc.rspStatus = map[string]string{"st": cs.id}
+				}
+				sys.runCall(cs, &bad)
+			}
 			for _, e := range []error{errors.New("plain failure"), &tars.Error{Code: -99, Message: "e-99"}, &tars.Error{Code: -1, Message: "e-1"},
 				&tars.Error{Code: 2, Message: "e2"}, &tars.Error{Code: 1<<31 - 1, Message: "emax"}} {
 				for _, ow := range []bool{false, true} {
@@ -255,6 +267,51 @@ func filterScenario(i *Iface, fc filterCfg) *vm.Scenario {
 				l[0] += ":with-filters:" + filterClass(fc)
 				bad[k] = strings.Join(l, "\n")
 			}
+		}
+		return e1.Multi(bad, "")
+	}
+	sc.Outcome = func(r *vm.Result) string { return fmt.Sprint(r.Status, len(bad), len(r.Obs)) }
+	return sc
+}
+
+// (d') a second filter of the same kind registered after calls have already been served: from then on
+// both are seen, in registration order (kind = pre, post, mw; side = client, server, both).
+func lateFilterScenario(i *Iface, kind, side string) *vm.Scenario {
+	var bad []string
+	sc := &vm.Scenario{Name: fmt.Sprintf("filters %s registered late on %s %s.%s", kind, side, i.Module, i.Name), MaxSteps: 5000000}
+	sc.Reset = func() { bad = nil }
+	sc.Main = func() {
+		first, both := filterCfg{}, filterCfg{}
+		late := filterCfg{}
+		if side == "client" || side == "both" {
+			first.client, both.client, late.client = kind+"1", kind+"2", "late-"+kind
+		}
+		if side == "server" || side == "both" {
+			first.server, both.server, late.server = kind+"1", kind+"2", "late-"+kind
+		}
+		sys := setup(i, first, 0)
+		f := i.funcs[0]
+		n := 0
+		round := func(fc filterCfg) {
+			for _, ow := range []bool{false, true} {
+				n++
+				cs := newSpec(f, fmt.Sprintf("l%d", n))
+				cs.oneway = ow
+				*sys.flog = nil
+				sys.runCall(cs, &bad)
+				if want := expectedFilterLog(fc, f.Name, ow); !sameFilterLog(*sys.flog, want, ow) {
+					bad = append(bad, fmt.Sprintf("filters-not-seen-exactly-once-in-order:registered-after-first-call:%s:%s\nwant %v got %v (oneway=%v)", kind, side, want, *sys.flog, ow))
+				}
+			}
+		}
+		round(first)
+		installFilters(late, sys.flog)
+		round(both)
+		round(both)
+	}
+	sc.Check = func(r *vm.Result) string {
+		if m := statusCheck(r); m != "" {
+			return m
 		}
 		return e1.Multi(bad, "")
 	}
@@ -427,6 +484,11 @@ func Main(corpusJSON string) {
 	for _, c := range kinds {
 		for _, s := range kinds {
 			cases = append(cases, e1.Case{Sc: filterScenario(svc, filterCfg{client: c, server: s}), Opt: vm.Options{Bound: 0, StrictDev: true}, Budget: budget, MinOutcomes: 1})
+		}
+	}
+	for _, kind := range []string{"pre", "post", "mw"} {
+		for _, side := range []string{"client", "server", "both"} {
+			cases = append(cases, e1.Case{Sc: lateFilterScenario(svc, kind, side), Opt: vm.Options{Bound: 0, StrictDev: true}, Budget: budget, MinOutcomes: 1})
 		}
 	}
 	// concurrency on a few functions with arguments, out parameters and return values
